@@ -113,8 +113,21 @@ func c04Final(s *msSys) (string, string) {
 			return "twin/commitid", fmt.Sprintf("second node committing the same writes got %d:%x at version %d, first node %x", id.Version, id.Hash, cm.ver, cm.id.Hash)
 		}
 	}
-	// (iii) the store that never closed agrees too
-	return msObserveMulti("live store", s.rs, s.skeys, s.commits[len(s.commits)-1].contents, s.cfg.keys, s.cfg.bounds, false)
+	// (iii) the store that never closed agrees too: its latest state and every saved version as IT reads them (the
+	// reopened store above and the running store must show the same saved versions)
+	if sig, what := msObserveMulti("live store", s.rs, s.skeys, s.commits[len(s.commits)-1].contents, s.cfg.keys, s.cfg.bounds, false); sig != "" {
+		return sig, what
+	}
+	for _, cm := range s.commits {
+		lz, err := s.rs.LoadLazyVersion(cm.ver)
+		if err != nil {
+			return "live-version/error", fmt.Sprintf("the running store cannot load saved version %d: %v", cm.ver, err)
+		}
+		if sig, what := msObserveMulti(fmt.Sprintf("saved version %d read by the running store (latest %d)", cm.ver, s.latest()), (*lz).(storetypes.MultiStore), s.skeys, cm.contents, s.cfg.keys, s.cfg.bounds, false); sig != "" {
+			return "live-version/" + sig, what
+		}
+	}
+	return "", ""
 }
 
 func c04Specs(tier string) []*seq.Spec {
@@ -126,7 +139,9 @@ func c04Specs(tier string) []*seq.Spec {
 	}
 	d := *cfg
 	d.direct = true // block writes straight into the live stores, as the application's deliver state does
-	return []*seq.Spec{msSpec("multistore-reload", cfg, depth), msSpec("multistore-reload-direct-writes", &d, depth-2)}
+	// three keys, one value, one store: the smallest tree in which a removal rewrites an inner node's separator key
+	three := &msCfg{nStores: 1, keys: msKeys3, vals: [][]byte{[]byte("a")}, bounds: msBounds3[:3], maxCommits: 3, final: c04FinalCommitted}
+	return []*seq.Spec{msSpec("multistore-reload", cfg, depth), msSpec("multistore-reload-direct-writes", &d, depth-2), msSpec("multistore-reload-three-keys", three, 7)}
 }
 
 // only states right after a commit are observed by reopening (uncommitted writes are not on disk by design)
